@@ -73,6 +73,10 @@ func NewReactor(config TxPoolConfig, txpool *TxPool) *Reactor {
 
 func (txR *Reactor) fetchTx(peer string, hashes []common.Hash) error {
 	p := txR.peers.Peer(p2p.ID(peer))
+	if p == nil {
+		// the peer left between its announcement and this (asynchronous) retrieval
+		return errNotRegistered
+	}
 	return p.RequestTxs(hashes)
 }
 
